@@ -203,6 +203,15 @@ def replay_arity(inputs, obl):
         bodies.add(':[' + a + ';' + b + ';1]')
     for a, b, c in itertools.product(['x', 'y', 'z'], repeat=3):
         bodies.add(f"{a}+-{b}*#{c}")
+    # a body that is one call of a named function: variables anywhere in the arguments count, literal lists are just data
+    k('nm::{#x}')
+    for a in atoms:
+        bodies.add(f"nm({a})")
+        bodies.add(f"nm({a},[1 2])")
+        bodies.add(f"nm([1 2 3],{a})")
+        bodies.add(f"nm(-{a})")
+    bodies.add('nm([1 2 3])')
+    bodies.add('nm("a";[1])')
     for body in sorted(bodies):
         src = '{' + body + '}'
         if '{x}' in body:
@@ -213,6 +222,8 @@ def replay_arity(inputs, obl):
             k('fq::' + src)
             got = k._context[next(s for s, _ in k._context if str(s) == 'fq')].arity
         except Exception as e:
+            if body.startswith('nm('):
+                problems.append(f"{src} cannot be defined: {type(e).__name__}: {str(e)[:60]}")
             continue
         if got != want:
             problems.append(f"{src} has arity {got}, its body mentions {want} of x, y, z")
